@@ -75,6 +75,10 @@ def gen_actions(rng, w, nmax=60, w2=None):
     for _ in range(n):
         r = rng.random()
         if rng.random() < 0.04:
+            # simulated time passes between two requests (or the wall clock is set back)
+            acts.append({'a': 'think', 's': rng.choice([0.5, 2.0, 400.0, 90000.0, -3600.0])})
+            continue
+        if rng.random() < 0.04:
             # the caller uses the stream it handed to TdmsFile.open itself in between (hashes it, peeks at the header)
             acts.append({'a': 'touch', 'frac': rng.random()})
             continue
@@ -338,6 +342,14 @@ def execute(case):
                         except (OSError, ValueError, KeyboardInterrupt):
                             pass          # the injected transient fault may meet the caller's own read
                     res.ev(step, 'touch')
+                elif a['a'] == 'think':
+                    res.probe('think-time')
+                    if a['s'] > 0:
+                        st.fs.clock.advance(a['s'])
+                    else:
+                        st.fs.clock.step_wall(a['s'])
+                        st.fs.clock.advance(1.0)
+                    res.ev(step, 'think', a['s'])
                 elif a['a'] == 'bop':
                     if tf2 is None or a['ch'] not in fulls2:
                         continue
